@@ -38,7 +38,7 @@ def draw(rng, index):
             "available_vms": {vm: f"only {d['variants'][0]}\n" for vm, d in spec["vms"].items()},
             "vm_strs": {vm: f"only {spec['vms'][vm]['variants'][0]}\n" for vm in selected},
             "plan": {"dur_mode": rng.choice(["short", "tied"]), "dur_seed": index, "by_class": {}}, "ignore_requirements": True, "pairs": {}}
-    invalid = rng.random() < 0.12
+    invalid = rng.random() < 0.18
     remove_set = rng.choice([None, None, "leaves", "normal"] + suitegen.leaf_names(spec)[:1])
     case["remove_set"] = remove_set or "leaves"
     for vm in selected:
@@ -51,7 +51,14 @@ def draw(rng, index):
         chain = chain_to_install(spec, to_state) if to_state in names else [to_state]
         from_state = rng.choice(chain)
         if invalid and vm == selected[0]:
-            if rng.random() < 0.5:
+            outside = sorted(set(names) - needed_setups(case, vm))
+            roll = rng.random()
+            if roll < 0.35 and outside:
+                # a setup test of the suite that is not part of the graph of the remove set for this vm
+                to_state = rng.choice(outside)
+                from_state = rng.choice(["install", to_state])
+                case["invalid_kind"] = "target outside the graph of the remove set"
+            elif roll < 0.7:
                 to_state = "nosuchstate"
             else:
                 from_state = "nosuchstate"
